@@ -66,7 +66,10 @@ impl BumpAllocator {
 
     /// Allocate a slice of objects of type T
     pub fn alloc_slice<T>(&self, count: usize) -> Result<NonNull<[T]>> {
-        let size = std::mem::size_of::<T>() * count;
+        let size = match std::mem::size_of::<T>().checked_mul(count) {
+            Some(size) => size,
+            None => return Err(ZiporaError::out_of_memory(count)),
+        };
         let align = std::mem::align_of::<T>();
         let ptr = self.alloc_bytes(size, align)?;
 
